@@ -2,11 +2,13 @@
 
    Two stages.
    (1) Machine invariant, by induction over the schedule: the history is a
-       VALID TRACE of a re-entrant lock in which every Rel/Read/Write is
+       VALID TRACE of a re-entrant lock in which every Rel/Write is
        executed by the owner ([vtrace], an independent, declarative description
        of such histories: entry by entry, "pre-state of the next = post-state of
-       this one"); the remaining program of every thread is bracketed from the
-       depth it currently holds; the executed events of a thread followed by
+       this one"); the remaining program of every thread keeps the writers'
+       discipline ([wbrk]: Writes under the lock, Reads anywhere) from the depth
+       it currently holds, and stays bracketed ([brk]) if it started bracketed,
+       in which case its Reads were made as owner; the executed events of a thread followed by
        its remaining program are its program; outermost acquisitions are
        counted by [nsec].
    (2) Pure list reasoning about valid traces: mutual exclusion, one version
